@@ -894,6 +894,10 @@ class Weaver:
             text = re.sub(r'^pub\(crate\)\s+', '', text.lstrip())
             if not text.startswith('pub'):
                 text = 'pub ' + text
+        if 'pubfields' in opts:
+            # visibility only: private fields are opaque to contracts of public functions
+            text = re.sub(r'(?m)^(\s+)(?!pub\b)(\w+\s*:)', r'\1pub \2', text)
+            log.append(('R12', 'fields made pub (visibility only)'))
         first = S.line_of(it['start'])
         a = w.lineno + 1
         w.emit('// ---- item %s (verbatim from %s:%d, sha256 %s) ----' % (' :: '.join(segs), file, first, S.sha(it['start'], it['end'])[:16]))
